@@ -574,6 +574,9 @@ fn eval_case(w: &World, r: &Reference, msg: &[u8], case: &Case, rep: &mut Report
                 let l = reject_label(e);
                 if l == "panic" {
                     rep.add_extra("panics_observed", 1);
+                    let loc = e.rsplit(" at ").next().unwrap_or("?");
+                    let loc = loc.rsplit("/mithril-stm/").next().unwrap_or(loc);
+                    rep.add_extra(&format!("panic_at:{loc}"), 1);
                 }
                 if !accepted {
                     label = format!("rejected:{l}");
